@@ -134,7 +134,10 @@ func (t *poll) Run(ctx execution.ExecutionContext, produce execution.ProduceFn, 
 			}
 
 			return nil
-		}, metaSend); err != nil {
+		}, func(ctx execution.ProduceContext, msg execution.MetadataMessage) error {
+			// The source is run again on every poll, so its watermarks are meaningless downstream. We send our own.
+			return nil
+		}); err != nil {
 			return fmt.Errorf("couldn't run source: %w", err)
 		}
 
